@@ -8,10 +8,11 @@
    handler with ordered batches, and then - in a deferred function, i.e. in a LATER critical section -
    runs finishShardDrain: scheduled = false; re-schedule if the queue is non-empty, else wg.Done().
 
-   FixF3 = FALSE is the code as it is: finishShardDrain re-schedules only if
-   `len(queue) > 0 && !shard.closed && !parent.closed` (finding F3: an item admitted between the
-   drain's last emptiness check and finishShardDrain is abandoned when Close intervenes).
-   FixF3 = TRUE: re-schedule whenever the queue is non-empty. *)
+   FixF3 = TRUE is the code as it is now (/repo commit 4a6260676): finishShardDrain re-schedules
+   whenever the queue is non-empty (and the runtime context is alive, i.e. Close has not finished or
+   given up).  FixF3 = FALSE is the code before the fix: re-schedule only if
+   `len(queue) > 0 && !shard.closed && !parent.closed` (finding F3, MC_f3.cfg: an item admitted
+   between the drain's last emptiness check and finishShardDrain was abandoned when Close intervened). *)
 EXTENDS WorkQueue, TLC
 
 CONSTANTS NP, ItemsPer,
